@@ -333,6 +333,11 @@ def assigned_names(body, acc=None, gl=None, nl=None):
         if not isinstance(x, tuple) or not x:
             return
         h = x[0]
+        if h == "do-mac":
+            # the quoted form returned by the body is the code that runs here
+            if is_form(x[-1], "quote"):
+                walk(x[-1][1])
+            return
         if h in ("str", ":", "quote"):
             return
         if h in ("setv",):
@@ -1255,6 +1260,16 @@ class Interp:
 
     def f_eval_and_compile(self, x, fr):
         return self.body(x[1:], fr)
+
+    def f_do_mac(self, x, fr):
+        """Run-time meaning of (do-mac body... 'FORM): the code FORM ("compiles the
+        resulting value as code"); the body itself ran at compile time."""
+        last = x[-1]
+        if is_form(last, "quote"):
+            return self.ev(last[1], fr)
+        if is_form(last, "ctval"):  # ("ctval", python-value): a compile-time computed constant
+            return last[1]
+        raise RefError("do-mac body must end in a quoted form in skeletons")
 
     # -- operators (documented expansions)
     def operator(self, x, fr):
